@@ -79,7 +79,7 @@ for _i in range(1, 21):
                                    "every recorded API call validated against CatImpl and judged by the CatMon monitors"}
 
 PROPS["C01"]["families"] = [GENERAL_S, fam("fam_prefix", 40, 800)]
-PROPS["C02"]["families"] = [GENERAL_S, fam("fam_prefix", 30, 500), fam("fam_lanes", 20, 200), fam("fam_casefold", 10, 200), fam("fam_lanes_wide", 12, 36)]
+PROPS["C02"]["families"] = [GENERAL_S, fam("fam_prefix", 30, 500), fam("fam_lanes", 20, 200), fam("fam_casefold", 10, 200), fam("fam_lanes_wide", 12, 36), fam("fam_implicit", 24, 400)]
 PROPS["C04"]["families"] = [GENERAL_S, fam("fam_num", 60, 1500)]
 PROPS["C19"]["families"] = [GENERAL_S, fam("fam_desc", 60, 1500)]
 
@@ -139,7 +139,7 @@ PROPS["C05"]["families"] = [GENERAL_S, fam("fam_buf", 60, 1500)]
 PROPS["C06"]["families"] = [GENERAL_S, fam("fam_bounds", 50, 1000)]
 PROPS["C07"]["families"] = [fam("fam_round", 40, 1500), fam("fam_round_exh8", 12, 60), fam("fam_access", 20, 300)]
 PROPS["C08"]["families"] = [GENERAL_S, fam("fam_access", 60, 1500)]
-PROPS["C09"]["families"] = [GENERAL_S, fam("fam_flags", 40, 1000)]
+PROPS["C09"]["families"] = [GENERAL_S, fam("fam_flags", 40, 1000), fam("fam_implicit", 24, 400)]
 PROPS["C10"]["families"] = [GENERAL_S, fam("fam_codes", 40, 1000)]
 PROPS["C11"]["families"] = [GENERAL_S, fam("fam_sched", 48, 1200)]
 PROPS["C12"]["families"] = [GENERAL_S, fam("fam_sched", 32, 800), fam("fam_conf", 48, 1200)]
